@@ -284,3 +284,18 @@ PROPS['C05'] = dict(
     level_text="Lean 4 theorems (any number of threads, every reachable state): C05_recv_enabled_iff / C05_send_enabled_iff (a blocked call can proceed exactly when the queue's state permits), C05_no_mutual_block (a consumer blocked on empty and a producer blocked on full never coexist), C05_recv_after_send / C05_recv_after_close / C05_send_after_recv (the step that changes the state enables the blocked call: no lost wake-up), C05_ctor_returns (constructing from N values never blocks once capacity >= N, for every N). Negative: C05_counterexample_removeall_breaks_accounting. Termination of every well-formed producer/consumer/closer program is established by exploration of all schedules of the small programs (DFS by replay on the real code), NOT by a Lean proof for all thread counts.",
     level_note="PARTIAL: real wake-ups belong to the Go runtime (textbook channel assumed); program termination by finite exploration only; stranding on a replaced channel after RemoveAll is a recorded finding that withheld scheduling cannot exhibit directly (its visible symptom here: a closed queue re-opened by RemoveAll blocks consumers for ever).",
 )
+
+PROPS['C06'] = dict(
+    id='C06', modules=['CollectionModel.Props.C06'],
+    key=lambda l: (l.get('k'), l.get('op'), len(l.get('input', [])), l.get('fan'), l.get('cap'), l.get('status'), l.get('mode'), l.get('steps')),
+    nontrivial=lambda l: l.get('k') == 'pipe', timeout=dict(quick=900, thorough=6000),
+    rule="cases = one run of {feeder, library helper goroutine(s), one reader per output} for Fork, Split or Split+Join on the real "
+         "queues under the controlled scheduler (helpers are adopted at their first synchronisation point; the caller's wait "
+         "group reports their exit): stream lengths 0..4, fan-out 2..3, capacity 1..2, schedules enumerated depth-first by "
+         "replay (budget 25 / 1500 per program) plus PRNG schedules, plus long random streams (17..100 values, fan-out up to 8); "
+         "judged: termination, wait group back to zero, every reader saw closure, nothing after closure, exact per-output sequences; "
+         "distinct = distinct (operation, length, fan-out, capacity, status, mode, number of steps)",
+    exhaustive_subspaces="programs whose schedule DFS finished within the budget (count in the qmeta line)",
+    level_text="Lean 4 theorems for Fork over a network of atomic bounded FIFO queues (the abstraction C04 justifies: one writer, one reader per queue), for EVERY input stream, fan-out, capacity and interleaving of feeder, helper and readers: C06_fork_prefix_inv (read_k ++ buffered_k ++ in-flight_k ++ input queue ++ unfed = input for every output k, in every reachable state: nothing lost, duplicated, reordered, invented), C06_fork_final (after completion every reader has read exactly the input), C06_fork_no_late (nothing is sent to an output after its closure). Split (round robin, splitSpec) and Split+Join (identity) are specified and checked on the real code over enumerated schedules, NOT proved; termination and the wait group are established by the exploration only.",
+    level_note="PARTIAL: Split/Join and termination by exploration only. The helper goroutine's iterator loop is modelled as a counter over the outputs. Real goroutine scheduling and the wait group are Go runtime facts observed by the harness.",
+)
